@@ -107,7 +107,7 @@ void buildTree(Rig &r, int variant) {
   t.mountNode(d, r.mkProbe(1), "q");
   t.mountNode(d, root, "up");
   t.mountNode(d, d, "self");
-  NodeToken sub = t.createDirNode();
+  NodeToken sub = t.createDirNode("");
   t.mountNode(d, sub, "sub");
   t.mountNode(sub, r.mkProbe(2, "r\r\n"), "r");
   t.mountNode(root, t.createDirNode("empty"), "e");
@@ -181,7 +181,7 @@ std::string runHostile(const Scenario &scn, CaseInfo &info) {
       size_t end = k < p.cuts.size() ? p.cuts[k] : p.stream.size();
       phase = "segment " + std::to_string(k) + " of " + std::to_string(nseg);
       bool last = k + 1 == nseg;
-      if (end - at == 2 * prev_len && prev_len > 0) exact_fill = true;
+      if (k == 1 && end - at == 2 * prev_len && prev_len > 0) exact_fill = true;
       prev_len = end - at;
       r.feed(p.stream.substr(at, end - at), (last && p.close == 3) ? 0 : p.passes, p.stale);
       at = end;
